@@ -282,13 +282,13 @@ int main(int argc, char ** argv) {
         }
     }
     {   /* long numbers, exponents with sign and with the blanks IEEE 488.2 allows, up to 12 entries */
-        static const char * nums[] = {"1.234567 E3", "1234.5678 E-2", "12345678 E1", "-0.000125 E4", "1E+2", "4E+1", "5E-1", "2.5e+0", "1.0e+1", "+.5", "123456789012", "0.000000001", "7"};
+        static const char * nums[] = {"1.234567 E3", "1234.5678 E-2", "12345678 E1", "-0.000125 E4", "1E+2", "4E+1", "5E-1", "2.5e+0", "1.0e+1", "+.5", "123456789012", "0.000000001", "7", "-2147483648", "2147483647"};
         int a, b2, c2;
         char body[256];
-        for (a = 0; a < 13; a++) for (b2 = 0; b2 < 13; b2++) for (c2 = 0; c2 < 13; c2++) {
+        for (a = 0; a < 15; a++) for (b2 = 0; b2 < 15; b2++) for (c2 = 0; c2 < 15; c2++) {
             int o;
             if (!MC_CASE()) continue;
-            o = sprintf(body, "%s,%s:%s,%s,%s:%s", nums[a], nums[b2], nums[c2], nums[(a + b2) % 13], nums[c2], nums[a]);
+            o = sprintf(body, "%s,%s:%s,%s,%s:%s", nums[a], nums[b2], nums[c2], nums[(a + b2) % 15], nums[c2], nums[a]);
             mc_case_tag = "long-numbers"; mc_case_s[0] = (const unsigned char *) body; mc_case_n[0] = (size_t) o;
             check_body(body, o, 6);
             if ((a + b2 + c2) % 3 == 0) { o = sprintf(body, "@%s!%s:%s!%s,%s", nums[4 + a % 4], nums[12], nums[5], nums[4 + b2 % 4], nums[4 + c2 % 4]); check_body(body, o, 3); }
